@@ -307,7 +307,7 @@ class ReturnExecNode(ExecNode):
         """
         suffix = make_suffix(name_or_order)
         super().__init__(
-            id_=f"{func}{RETURN_NAME_SEP}{suffix}",
+            id_=f"{func.__qualname__}{RETURN_NAME_SEP}{suffix}",
             is_sequential=False,
             resource=Resource.main_thread,
         )
